@@ -56,6 +56,8 @@ pub struct Step {
     /// 0 = none; otherwise cancelled at event 1 + (cancel-1) mod (events of the reference run)
     pub cancel: u64,
     pub save: bool,
+    /// the same call this many times back to back (long same-thread histories: wrapping counters, growing caches)
+    pub repeat: u32,
 }
 
 #[derive(Debug)]
@@ -215,6 +217,13 @@ fn client_main(sh: Arc<Shared>, me: usize, start: usize, mut saved: Vec<Arc<Buil
         let ex = &sh.expects[me][i];
         let l = resolve(step.lhs, &sh.pool, &saved).clone();
         let r = resolve(step.rhs, &sh.pool, &saved).clone();
+        let mut rep = 0;
+        let mut stop_now = false;
+        while rep < step.repeat.max(1) && !stop_now {
+        rep += 1;
+        if rep > 1 {
+            sh.cnt("probe_back_to_back_repetition_of_a_call");
+        }
         h.events.set(0);
         h.budget.set(ex.budget);
         h.cancel_at.set(ex.cancel_k);
@@ -297,10 +306,15 @@ fn client_main(sh: Arc<Shared>, me: usize, start: usize, mut saved: Vec<Arc<Buil
                 *g = Some(v);
             }
             sh.stop.store(true, SeqCst);
-            break;
+            stop_now = true;
+            continue;
         }
-        if let (Some(k), true) = (keep, ex.cancel_k == 0) {
+        if let (Some(k), true, true) = (keep, ex.cancel_k == 0, rep == 1) {
             saved.push(heap::with_policy(Policy::CANON, || Arc::new(Built::new(k))));
+        }
+        }
+        if stop_now {
+            break;
         }
         i += 1;
     }
@@ -357,6 +371,32 @@ impl C12World {
     }
 }
 
+/// Long single-thread history: one large call, the same small call n-1 times, the large call again, with n
+/// around a power of two (a wrapped generation counter or stamp makes the second large call see stale state).
+fn soak_world(seed: u64, r: &mut Rng) -> C12World {
+    let big_a = geom::gen_rect_operand(r, 14, 4);
+    let big_b = geom::translate(&geom::gen_rect_operand(r, 14, 4), 1.0, 1.0);
+    let tiny_a: Operand = vec![vec![vec![[0.0, 0.0], [2.0, 0.0], [2.0, 2.0], [0.0, 2.0], [0.0, 0.0]]]];
+    let tiny_b: Operand = vec![vec![vec![[1.0, 1.0], [3.0, 1.0], [3.0, 3.0], [1.0, 3.0], [1.0, 1.0]]]];
+    let base = *r.pick(&[256u32, 256, 65536, 65536, 65536]);
+    let n = (base as i64 + r.range(-1, 1)) as u32;
+    let heap = if r.chance(1, 2) { 0 } else { Policy { place: *r.pick(&PLACES), fill: *r.pick(&FILLS) }.code() };
+    let op = *r.pick(&[1u8, 3]);
+    let call = |lhs: u32, rhs: u32, op: u8, repeat: u32| Step {
+        retire: false, op, lhs: Src::Pool(lhs), rhs: Src::Pool(rhs), pairing: 0, f32_: false, heap, clone_ops: false, cancel: 0, save: false, repeat,
+    };
+    C12World {
+        operands: vec![big_a, big_b, tiny_a, tiny_b],
+        clients: vec![vec![call(0, 1, op, 1), call(2, 3, r.below(4) as u8, n - 1), call(0, 1, op, 1)]],
+        yield16: 0,
+        sched_seed: Rng::stream(seed, "schedule").next(),
+        schedule: None,
+        hash_seed: Rng::stream(seed, "hashkeys").next(),
+        heap_seed: Rng::stream(seed, "heap").next(),
+        recorded: Mutex::new(Vec::new()),
+    }
+}
+
 fn src_json(s: Src) -> Value {
     match s {
         Src::Pool(j) => json!(["operand", j]),
@@ -376,7 +416,7 @@ fn step_json(s: &Step) -> Value {
         return json!({"retire_thread": true});
     }
     json!({"op": OP_NAMES[s.op as usize], "lhs": src_json(s.lhs), "rhs": src_json(s.rhs), "pairing": s.pairing, "f32": s.f32_,
-        "heap": s.heap, "heap_name": Policy::from_world(s.heap).name(), "clone_operands": s.clone_ops, "cancel": s.cancel, "save_result": s.save})
+        "heap": s.heap, "heap_name": Policy::from_world(s.heap).name(), "clone_operands": s.clone_ops, "cancel": s.cancel, "save_result": s.save, "repeat": s.repeat})
 }
 fn step_from(v: &Value) -> Step {
     Step {
@@ -390,6 +430,7 @@ fn step_from(v: &Value) -> Step {
         clone_ops: v["clone_operands"].as_bool().unwrap_or(false),
         cancel: v["cancel"].as_u64().unwrap_or(0),
         save: v["save_result"].as_bool().unwrap_or(false),
+        repeat: v["repeat"].as_u64().unwrap_or(1).max(1) as u32,
     }
 }
 
@@ -401,6 +442,9 @@ impl World for C12World {
     fn generate(seed: u64, _index: u64, _tier: Tier) -> Self {
         let mut r = Rng::stream(seed, "workload");
         let mut fr = Rng::stream(seed, "faults");
+        if r.chance(1, 600) {
+            return soak_world(seed, &mut r);
+        }
         let faulty = !fr.chance(1, 5);
         let g = 8 + r.below(6) as i64;
         let npool = 2 + r.below(5) as usize;
@@ -429,7 +473,7 @@ impl World for C12World {
             let mut script = Vec::new();
             for _ in 0..n {
                 if faulty && fr.chance(2, 25) && !script.is_empty() {
-                    script.push(Step { retire: true, op: 0, lhs: Src::Pool(0), rhs: Src::Pool(0), pairing: 0, f32_: false, heap: 0, clone_ops: false, cancel: 0, save: false });
+                    script.push(Step { retire: true, op: 0, lhs: Src::Pool(0), rhs: Src::Pool(0), pairing: 0, f32_: false, heap: 0, clone_ops: false, cancel: 0, save: false, repeat: 1 });
                     continue;
                 }
                 let src = |r: &mut Rng| if r.chance(1, 5) { Src::Saved(r.below(4) as u32) } else { Src::Pool(r.below(npool as u64) as u32) };
@@ -445,6 +489,7 @@ impl World for C12World {
                     clone_ops: faulty && fr.chance(3, 10),
                     cancel: if faulty && fr.chance(1, 10) { 1 + fr.below(1000) } else { 0 },
                     save: r.chance(1, 3),
+                    repeat: 1,
                 });
             }
             clients.push(script);
@@ -643,6 +688,9 @@ impl World for C12World {
                         out.push(w);
                     }
                 };
+                push(&|s| s.repeat = 1);
+                push(&|s| s.repeat = (s.repeat / 2).max(1));
+                push(&|s| s.repeat = s.repeat.saturating_sub(1).max(1));
                 push(&|s| s.heap = 0);
                 push(&|s| s.clone_ops = false);
                 push(&|s| s.cancel = 0);
